@@ -97,6 +97,13 @@ func nodeFacts(x *X) error {
 		}
 		x.StrList(a.out+"Access", lockTable(x, fd))
 	}
+	// DTLSR.ReportFailure: empty in the original code, removes the peer from the sent list after the fix
+	if fd, err := x.Func(routingDir, "DTLSR", "ReportFailure"); err == nil {
+		x.Bool("dtlsrReportsFailure", x.HasCall(fd, "store.Update"))
+		x.StrList("dtlsrReportFailureAccess", lockTable(x, fd))
+	} else {
+		return err
+	}
 	// the per-peer goroutine of forward(): Send, then ReportFailure on error
 	fw, err := x.Func(routingDir, "Core", "forward")
 	if err != nil {
